@@ -397,6 +397,7 @@ func runC15(c *Ctx) {
 	r.Doc("D6", "the deferred wait-for-zero covers the error exit (E4)", 2)
 	r.Doc("D7", "v2 New: error of validation/prepare returned with a nil discipline; go only on the no-error edges", 2)
 	r.Doc("D8", "zero-share rejection quantifies over the registered priorities", 1)
+	r.Doc("D10", "error tests are not inverted: no function of the priority packages returns as its error a value it tested nil, none reports success where a product call's error was found non-nil (a divider fault reaches Err() / New's result)", 10)
 	r.Doc("D9", "v1 Simple forwards every error it receives from the inner discipline to its own Err()", 1)
 	for _, p := range []*Prog{c.V1, c.V2} {
 		pr, err := resolvePrio(p)
@@ -430,6 +431,8 @@ func runC15(c *Ctx) {
 		checkD5b(c, pr)
 	}
 	checkD7D8(c)
+	checkErrorTests(c, c.V1, "D10", c.V1.errorFuncs("priority"))
+	checkErrorTests(c, c.V2, "D10", c.V2.errorFuncs("priority", "priority/simple"))
 }
 
 func checkD5bad(c *Ctx, pr *prioRoles) {
